@@ -2,9 +2,10 @@
    programs of the DecPrograms.v generated for this run (argv[1]); the very text compiled by Coq is
    parsed here (one `Definition prog_<T> : block := <sexp>.` per line, ids in order of appearance).
    requests (stdin, one per line):
-     run <fid> <capextra> <hex|->      ->  ok|err|panic:<site>|hang:<loop site> <cost> <alloc>
+     run <fid> <capextra> <hex|->      ->  ok|err|panic:<site>|hang:<loop site>|slow <cost> <alloc>   (slow: more than 4e6+200*len byte reads)
      unsafe                            ->  one line: <fid>:<site>:<code>:<need>:<have> ... (space separated) or "-"
-     safe                              ->  true|false *)
+     safe                              ->  true|false
+     linear                            ->  <all_linear> <size> <coef> <fids rejected by linear_prog, comma separated | -> *)
 open Model
 
 let rec pos_of_int n = if n = 1 then XH else if n land 1 = 0 then XO (pos_of_int (n lsr 1)) else XI (pos_of_int (n lsr 1))
@@ -114,16 +115,27 @@ let () =
      | ["run"; fid; capx; hex] ->
         let b = bytes_of_hex hex in
         let n = Bytes.length b in
-        let rd z = let i = int_of_z z in if i >= 0 && i < n then bytetab.(Char.code (Bytes.get b i)) else Z0 in
-        let r = run_top rd ps (nat_of_int (n + 1)) (z_of_int (int_of_string fid)) (z_of_int n) (z_of_int (n + int_of_string capx)) in
-        let c = (match classify r with OOk -> "ok" | OErr -> "err" | OPanic s -> "panic:" ^ string_of_int (int_of_z s) | OHang s -> "hang:" ^ string_of_int (int_of_z s)) in
-        Printf.printf "%s %d %d\n" c (int_of_z (final_cost r)) (int_of_z (final_alloc r))
+        (* every byte read goes through rd: a budget on the number of reads stops runs whose cost explodes
+           (a decoder that is not linear can take exponential time although it terminates) *)
+        let reads = ref 0 in
+        let budget = 4000000 + 200 * n in
+        let rd z = incr reads; if !reads > budget then raise Exit;
+                   let i = int_of_z z in if i >= 0 && i < n then bytetab.(Char.code (Bytes.get b i)) else Z0 in
+        (try
+          let r = run_top rd ps (nat_of_int (n + 1)) (z_of_int (int_of_string fid)) (z_of_int n) (z_of_int (n + int_of_string capx)) in
+          let c = (match classify r with OOk -> "ok" | OErr -> "err" | OPanic s -> "panic:" ^ string_of_int (int_of_z s) | OHang s -> "hang:" ^ string_of_int (int_of_z s)) in
+          Printf.printf "%s %d %d\n" c (int_of_z (final_cost r)) (int_of_z (final_alloc r))
+        with Exit -> Printf.printf "slow -1 -1\n")
      | ["unsafe"] ->
         let items = List.concat_map (fun (f, fs) ->
           List.map (fun (((site, code), need), have) ->
             Printf.sprintf "%d:%d:%d:%d:%d" (int_of_z f) (int_of_z site) (int_of_z code) (int_of_z need) (int_of_z have)) fs)
           (all_unsafe_sites ps) in
         print_endline (if items = [] then "-" else String.concat " " items)
+     | ["linear"] ->
+        let nl = List.map (fun z -> string_of_int (int_of_z z)) (not_linear ps) in
+        Printf.printf "%s %d %d %s\n" (if all_linear ps then "true" else "false") (int_of_z (size ps)) (int_of_z (coef ps))
+          (if nl = [] then "-" else String.concat "," nl)
      | ["safe"] -> print_endline (if all_safe ps then "true" else "false")
      | ["safe1"; fid] ->
         let f = z_of_int (int_of_string fid) in
